@@ -20,7 +20,7 @@ CHECKS = {
                 "(0-RTT: the client writes first and the request travels with the first write; standard: either side speaks "
                 "first), destinations in the three address forms, the request seen by the server application compared with "
                 "the one dialled; a long-pause family in virtual time (6000 writes of 8 bytes, 64 KiB socket buffers, the reader stops "
-                "for 20/45/70/130/200/400 s; more than a minute is the recorded known finding)",
+                "for 20/45/70/130/200/400 s; more than a minute is the recorded known finding) In every fifth case the application also opens one or two further proxy connections on the same client and drops them unused; in long-pause cases of the client side (20/45 s) it opens, uses and closes a brief sibling connection on the same TCP connection.",
         "technique": "runtime monitor: keyed position-identifying streams compared at both application ends + "
                      "independent reference decoder on the tapped wire, real stack on simulated network in virtual time",
         "text": "Every byte read at either end is compared against a keyed position-identifying stream, so loss, "
@@ -270,7 +270,7 @@ CHECKS = {
                 "and - the generator playing server - against the real client; SOCKS5: grammar-based hostile greetings, requests, "
                 "user/password sub-negotiations, UDP-associate frames and datagrams, replies of a hostile upstream proxy and egress "
                 "proxy, the UDP associate wrapper; the endpoint runs in the case's child process: any panic/fatal error kills the batch "
-                "and is reported with the write-ahead logged case; an unrelated user's canary transfer must complete afterwards",
+                "and is reported with the write-ahead logged case; an unrelated user's canary transfer must complete afterwards The live session of another user whose id the hostile peer names must still accept a write afterwards; UDP associations see replies too large for a tunnel frame followed by a connection reset.",
         "technique": "runtime monitor: child-process liveness + canary under generated hostile authenticated traffic (reference-codec "
                      "driven) and SOCKS5 byte-string fuzzing, every case logged before execution",
         "text": "Crash freedom is shown for the generated language only; generators are aimed at every panic site and parser in the "
@@ -311,7 +311,7 @@ CHECKS = {
                 "between: each returns a time-out no later than the deadline + 1 s; the same for Write loops (10 B .. 200 kB per call) "
                 "towards a peer that does not read or behind a network that delivers nothing, deadline future / now / past, set "
                 "with SetDeadline or SetWriteDeadline, two loops per case; (c) reader + writer + closer goroutines on the "
-                "same session and Stop racing sessions under the race detector; distinct = hash of case parameters",
+                "same session and Stop racing sessions under the race detector; distinct = hash of case parameters C15-apiclose: Close before, during and after the handshake of the connection type the client API returns (both handshake modes): returns, repeatable, blocked Write returns, no panic.",
         "technique": "runtime monitor: bounded-return oracle in virtual time over parked Read/Write/Close/Stop calls + goroutine census "
                      "at quiescence + Go race detector over close/stop racing traffic",
         "text": "Liveness is restated as bounded return in virtual time (the bounds are far above the stack's own timers: 1 s clean-up "
@@ -350,7 +350,7 @@ CHECKS = {
                 "marker, truncation at every offset, length above the reader's buffer); oversized 65536-byte write; (b) relay: "
                 "RunUDPAssociateLoop on kernel sockets with three destinations (two on 127.0.0.1, one on ::1, one replying late), "
                 "interleaved uploads, every reply's SOCKS5 header compared with the replying host; (c) UDPAssociateWrapper round trips "
-                "incl. empty payloads and IPv4-mapped addresses; distinct = (chunk schedule, mode) / case index",
+                "incl. empty payloads and IPv4-mapped addresses; distinct = (chunk schedule, mode) / case index The relay runs also see a datagram for an unresolvable name in the middle, datagrams near the UDP maximum, and every reply is compared byte for byte with what was sent.",
         "technique": "runtime monitor: datagram-sequence equality through the framing and the relay with self-describing datagrams; "
                      "error-not-fabrication oracle for malformed frames",
         "text": "Boundaries, contents, order within the tunnel and addressing are compared datagram by datagram; a shortfall at a kernel "
@@ -371,7 +371,7 @@ CHECKS = {
                 "read buffers from 7 bytes to 64 KiB, with the input loop held by a hook in half of the cases; (c) quota users (single "
                 "2 MB/day, two quotas 3 MB/day + 5 MB/30 days, none): within allowance never refused, ~4 MiB on a 2 MB quota refused "
                 "with nothing relayed, others unaffected, window rolls after 25 virtual hours; (d) concurrent Add/Load histories "
-                "checked with porcupine under the race detector",
+                "checked with porcupine under the race detector C19-partial: a server write accepted only in part (write deadline or close under a 10-18 MiB write to a client that stopped reading) must be on the counter with the accepted n.",
         "technique": "runtime monitor: conservation invariants on counters over generated histories in virtual time; per-user byte "
                      "accounting compared with the application boundary; quota outcome oracle; porcupine + race detector",
         "text": "Window reports are compared with algebraic laws (additivity, monotonicity, bounds) because compaction legitimately "
@@ -391,7 +391,7 @@ CHECKS = {
                 "directory: store->load equivalence, plaintext password tokens searched in the stored file (raw and JSON-escaped), "
                 "mieru:// and mierus:// export->import, client and server patches (one section at a time; unset sections must keep "
                 "their value), start/stop of a client mux on the simulated network, and ~140 malformed links and JSON texts per case "
-                "offered to every parse/import/apply entry point under recover()",
+                "offered to every parse/import/apply entry point under recover() Server patches are applied alternately through the library function and through the real `mita apply config` command talking to the real management service on a UNIX socket inside the harness; client patches are compared field by field; C20-conc: three loaders while 300 configurations are stored.",
         "technique": "runtime monitor: round-trip / patch / totality laws over generated configurations and malformed inputs, inputs "
                      "written to disk before each call",
         "text": "Validators are the gate for what counts as valid; equivalence is proto.Equal modulo the documented password hashing.",
